@@ -23,6 +23,7 @@ ASSUMPTIONS = [
     "tgBoundariesToZeroCrossings / audioSplice: concrete sample patterns, symbolic on-grid times",
 ]
 RATE = 8
+RATE_TG = 1024  # the textgrid-level functions use the default timeStep (0.002 s): it must span at least two samples
 CALL_BOUND = 200
 
 
@@ -96,7 +97,7 @@ def ob_zc(n, step_samples, timeout, RATE=RATE):
             return "result not on a sample position although the target is"
         return True if genuine(xs, int(i)) else "result is not a zero or a sign change"
 
-    return Ob("zerocrossing-n%d-step%d%s" % (n, step_samples, "" if RATE == 8 else "-rate%d" % RATE), I(*names), body, pre, fmode="real", timeout=timeout, funcs=FUNCS[:3], bounds="%d symbolic samples in [-2,2], target on any sample position 0..%d, timeStep %d samples, frame rate %d" % (n, n, step_samples, RATE),
+    return Ob("zerocrossing-n%d-step%s%s" % (n, ("%g" % step_samples).replace(".", "_"), "" if RATE == 8 else "-rate%d" % RATE), I(*names), body, pre, fmode="real", timeout=timeout, funcs=FUNCS[:3], bounds="%d symbolic samples in [-2,2], target on any sample position 0..%d, timeStep %g samples, frame rate %d" % (n, n, step_samples, RATE),
               canaries=[{"target": "praatio.audio:_findNextZeroCrossing", "find": "return startTime + zeroI / float(frameRate)", "replace": "return startTime + (zeroI + 1) / float(frameRate)"}] if (n, step_samples) == (4, 2) else [])
 
 
@@ -125,22 +126,35 @@ PATTERNS = {
 }
 
 
-def ob_tg_zc(pat, timeout):
+def _collapses(xs, a, b):
+    """the two boundaries of an interval move onto crossings that do not leave a positive length
+    (then no well-formed interval exists and a TextgridStateError is the documented answer)"""
+    try:
+        na = SymWav(xs, RATE_TG).findNearestZeroCrossing(a / RATE_TG)
+        nb = SymWav(xs, RATE_TG).findNearestZeroCrossing(b / RATE_TG)
+    except errors.FindZeroCrossingError:
+        return True
+    return not (na < nb)
+
+
+def ob_tg_zc(pat, timeout, fixed_q=None):
     xs = PATTERNS[pat]
     n = len(xs)
 
     def pre(a, b, p, q):
-        return 0 <= a < b <= n and 0 <= p < q <= n
+        return 0 <= a < b <= n and 0 <= p < q <= n and (fixed_q is None or q == fixed_q)
 
     def body(a, b, p, q):
-        w = SymWav(xs)
-        tg = Textgrid(0.0, n / RATE)
-        tg.addTier(IntervalTier("i", [Interval(a / RATE, b / RATE, "x")], 0.0, n / RATE))
-        tg.addTier(PointTier("p", [Point(p / RATE, "u"), Point(q / RATE, "v")], 0.0, n / RATE))
+        w = SymWav(xs, RATE_TG)
+        tg = Textgrid(0.0, n / RATE_TG)
+        tg.addTier(IntervalTier("i", [Interval(a / RATE_TG, b / RATE_TG, "x")], 0.0, n / RATE_TG))
+        tg.addTier(PointTier("p", [Point(p / RATE_TG, "u"), Point(q / RATE_TG, "v")], 0.0, n / RATE_TG))
         try:
             r = praatio_scripts.tgBoundariesToZeroCrossings(tg, w)
-        except errors.PraatioException:
+        except errors.FindZeroCrossingError:
             return True
+        except errors.TextgridStateError:
+            return True if _collapses(xs, a, b) else "TextgridStateError although the moved interval keeps a positive length"
         if list(r.tierNames) != ["i", "p"]:
             return "tier order"
         ei, ep = r.getTier("i").entries, r.getTier("p").entries
@@ -149,12 +163,43 @@ def ob_tg_zc(pat, timeout):
         if ei[0][2] != "x" or sorted(e[1] for e in ep) != ["u", "v"]:
             return "labels changed"
         for t in (ei[0][0], ei[0][1], ep[0][0], ep[1][0]):
-            i = t * RATE
+            i = t * RATE_TG
             if i != int(i) or not genuine(xs, int(i)):
                 return "boundary not moved to a genuine zero crossing"
         return True
 
-    return Ob("tg-to-zerocrossings-%s" % pat, I("a", "b", "p", "q"), body, pre, fmode="real", timeout=timeout, funcs=FUNCS[3:4] + FUNCS[:1], bounds="pattern %s (8 samples), 1 interval + 2 points on any sample positions" % pat)
+    return Ob("tg-to-zerocrossings-%s%s" % (pat, "" if fixed_q is None else "-q%d" % fixed_q), I("a", "b", "p", "q"), body, pre, fmode="real", timeout=timeout, funcs=FUNCS[3:4] + FUNCS[:1], bounds="pattern %s (8 samples at 1024 Hz, default timeStep), 1 interval + 2 points on any sample positions%s" % (pat, "" if fixed_q is None else " (second point fixed at sample %d)" % fixed_q))
+
+
+def ob_tg_zc_points_same_crossing(timeout):
+    """a recording with a single crossing: every point of a point tier moves onto it - the tier
+    keeps its entry count and labels (several points on one time)"""
+    xs = PATTERNS["single"]
+    n = len(xs)
+
+    def pre(p, q, r):
+        return 0 <= p < q < r <= n
+
+    def body(p, q, r):
+        w = SymWav(xs, RATE_TG)
+        tg = Textgrid(0.0, n / RATE_TG)
+        tg.addTier(PointTier("p", [Point(p / RATE_TG, "u"), Point(q / RATE_TG, "v"), Point(r / RATE_TG, "w")], 0.0, n / RATE_TG))
+        try:
+            res = praatio_scripts.tgBoundariesToZeroCrossings(tg, w)
+        except errors.FindZeroCrossingError:
+            return True
+        ep = res.getTier("p").entries
+        if len(ep) != 3:
+            return "entry count changed"
+        if sorted(e[1] for e in ep) != ["u", "v", "w"]:
+            return "labels changed"
+        for e in ep:
+            i = e[0] * RATE_TG
+            if i != int(i) or not genuine(xs, int(i)):
+                return "point not moved to a genuine zero crossing"
+        return True
+
+    return Ob("tg-to-zerocrossings-points-same-crossing", I("p", "q", "r"), body, pre, fmode="real", timeout=timeout, funcs=FUNCS[3:4] + FUNCS[:1], bounds="pattern single (8 samples, one sign change), 3 points on any sample positions")
 
 
 def _wav(samples, rate, width=2):
@@ -208,20 +253,22 @@ def ob_tg_zc_flags(timeout):
         return 0 <= a < b <= n and 0 <= p <= n and 0 <= fp <= 1 and 0 <= fi <= 1
 
     def body(a, b, p, fp, fi):
-        w = SymWav(xs)
-        tg = Textgrid(0.0, n / RATE)
-        tg.addTier(IntervalTier("i", [Interval(a / RATE, b / RATE, "x")], 0.0, n / RATE))
-        tg.addTier(PointTier("p", [Point(p / RATE, "u")], 0.0, n / RATE))
-        tg.addTier(IntervalTier("j", [], 0.0, n / RATE))
+        w = SymWav(xs, RATE_TG)
+        tg = Textgrid(0.0, n / RATE_TG)
+        tg.addTier(IntervalTier("i", [Interval(a / RATE_TG, b / RATE_TG, "x")], 0.0, n / RATE_TG))
+        tg.addTier(PointTier("p", [Point(p / RATE_TG, "u")], 0.0, n / RATE_TG))
+        tg.addTier(IntervalTier("j", [], 0.0, n / RATE_TG))
         try:
             r = praatio_scripts.tgBoundariesToZeroCrossings(tg, w, bool(fp), bool(fi))
-        except errors.PraatioException:
+        except errors.FindZeroCrossingError:
             return True
+        except errors.TextgridStateError:
+            return True if (fi and _collapses(xs, a, b)) else "TextgridStateError although the moved interval keeps a positive length"
         if list(r.tierNames) != ["i", "p", "j"]:
             return "tier set/order"
-        if not fi and tuples(r.getTier("i").entries) != [(a / RATE, b / RATE, "x")]:
+        if not fi and tuples(r.getTier("i").entries) != [(a / RATE_TG, b / RATE_TG, "x")]:
             return "interval tier changed although adjustIntervalTiers is False"
-        if not fp and tuples(r.getTier("p").entries) != [(p / RATE, "u")]:
+        if not fp and tuples(r.getTier("p").entries) != [(p / RATE_TG, "u")]:
             return "point tier changed although adjustPointTiers is False"
         if [len(t.entries) for t in r.tiers] != [1, 1, 0]:
             return "entry counts"
@@ -299,8 +346,11 @@ def obligations(tier):
         obs.append(ob_zc(5, 3, 300))
         obs.append(ob_zc(3, 1, 60))
         obs.append(ob_zc(4, 2, 300, RATE=32))  # 1/32 s has five decimals
+        obs.append(ob_zc(4, 2.5, 300))  # a step that is not a whole number of samples
+        obs.append(ob_zc(5, 3.25, 300))
         obs.append(ob_zc_nocrossing(6, 2, 300))
-        obs.append(ob_tg_zc("mixed", 300))
+        obs.append(ob_tg_zc("mixed", 400, fixed_q=8))
+        obs.append(ob_tg_zc_points_same_crossing(300))
         obs.append(ob_tg_zc_flags(300))
         obs.append(ob_zc_after_insert(300))
         from harness import C16
@@ -312,6 +362,8 @@ def obligations(tier):
         obs.append(ob_splice(True, True, 300, fixed=(3, 8)))
     else:
         obs.append(ob_zc(5, 3, 2400, RATE=32))
+        for n, st in ((4, 2.5), (5, 2.25), (5, 3.25), (6, 2.75)):
+            obs.append(ob_zc(n, st, 2400))
         for n in (3, 4, 5, 6):
             for st in (1, 2, 3, 4):
                 obs.append(ob_zc(n, st, 2400))
@@ -321,6 +373,7 @@ def obligations(tier):
         for p in PATTERNS:
             obs.append(ob_tg_zc(p, 1200))
         obs.append(ob_tg_zc_flags(1200))
+        obs.append(ob_tg_zc_points_same_crossing(1200))
         obs.append(ob_zc_after_insert(2400))
         for al in (False, True):
             for ws in (False, True):
